@@ -38,7 +38,7 @@ var importName = map[string]string{
 }
 
 type stats struct {
-	files, imports, gos, recvs, sends, selects, mapRanges int
+	files, imports, gos, recvs, sends, selects, mapRanges, memyield int
 }
 
 var st stats
@@ -89,8 +89,8 @@ func main() {
 			}
 		}
 	}
-	fmt.Printf("instrument: files=%d imports=%d go=%d recv=%d send=%d select=%d maprange=%d\n",
-		st.files, st.imports, st.gos, st.recvs, st.sends, st.selects, st.mapRanges)
+	fmt.Printf("instrument: files=%d imports=%d go=%d recv=%d send=%d select=%d maprange=%d appendyield=%d\n",
+		st.files, st.imports, st.gos, st.recvs, st.sends, st.selects, st.mapRanges, st.memyield)
 }
 
 func fatal(err error) {
@@ -228,9 +228,32 @@ func (r *rewriter) block(b *ast.BlockStmt) {
 func (r *rewriter) stmts(list []ast.Stmt) []ast.Stmt {
 	var out []ast.Stmt
 	for _, s := range list {
+		appends := isAppendAssign(s)
 		out = append(out, r.stmt(s))
+		if appends {
+			// a task may be preempted between growing a slice (whose backing array may be
+			// shared) and the next use of it; only effective in runs with MemYields
+			out = append(out, &ast.ExprStmt{X: &ast.CallExpr{Fun: r.simrt("YieldMem"), Args: []ast.Expr{r.siteLit(s, "append")}}})
+			st.memyield++
+		}
 	}
 	return out
+}
+
+// isAppendAssign: x = append(...), x := append(...), x, y = ..., append(...)
+func isAppendAssign(s ast.Stmt) bool {
+	as, ok := s.(*ast.AssignStmt)
+	if !ok {
+		return false
+	}
+	for _, rhs := range as.Rhs {
+		if ce, ok := rhs.(*ast.CallExpr); ok {
+			if id, ok := ce.Fun.(*ast.Ident); ok && id.Name == "append" {
+				return true
+			}
+		}
+	}
+	return false
 }
 
 // stmt rewrites one statement and returns its replacement.
